@@ -62,8 +62,10 @@ impl Model {
     fn add(&mut self, r: &ARecord, kind: Kind) {
         let k = key_of(r);
         if let Some(e) = self.recs.iter_mut().find(|(x, _)| *x == k) {
-            if e.1 != kind {
-                e.1 = Kind::Ambiguous;
+            // registering locally makes (or keeps) the record authoritative; receiving an equal record from
+            // the network never demotes a locally registered one (C20: "disappear only when removed or cleared")
+            if kind == Kind::Auth {
+                e.1 = Kind::Auth;
             }
         } else {
             self.recs.push((k, kind));
@@ -255,11 +257,13 @@ pub fn catalogue() -> Vec<ARecord> {
         rec("x._my.local", 1, txt("k=v")),
         rec("_my.local", 1, ARData::Typed { code: 7, fields: vec![Val::Name(n("foobar"))] }),
         rec("_mysrv.local", 3, a(0x0a000004)),
+        rec("_my.local", 1, ARData::Typed { code: 8, fields: vec![Val::Name(n("bar.foo"))] }),
+        rec("foobar", 1, ARData::Typed { code: 9, fields: vec![Val::Name(n("foo.bar"))] }),
     ]
 }
 
 const QNAMES: [&str; 12] = ["foobar", "bar.foo", "foo.bar", "foo", "bar", "_my.local", "_mysrv.local", "local", "b.local", "ba.local", "a.b.local", "my.local"];
-const QTYPES: [u16; 8] = [1, 33, 16, 255, 253, 12, 252, 254];
+const QTYPES: [u16; 10] = [1, 33, 16, 255, 253, 12, 252, 254, 8, 9];
 const QCLASSES: [u16; 3] = [1, 3, 255];
 
 fn all_questions() -> Vec<AQuestion> {
@@ -324,7 +328,7 @@ fn coll_rdata() -> BoxedStrategy<ARData> {
         3 => (coll_name(), 80u16..83).prop_map(|(t, p)| ARData::Typed { code: 33, fields: vec![Val::U16(0), Val::U16(0), Val::U16(p), Val::Name(t)] }),
         2 => select(vec!["k=v", "", "x"]).prop_map(txt),
         1 => coll_name().prop_map(|t| ARData::Typed { code: 12, fields: vec![Val::Name(t)] }),
-        1 => coll_name().prop_map(|t| ARData::Typed { code: 7, fields: vec![Val::Name(t)] }),
+        2 => (select(vec![7u16, 8, 9]), coll_name()).prop_map(|(c, t)| ARData::Typed { code: c, fields: vec![Val::Name(t)] }),
         1 => (any::<u16>(), coll_name()).prop_map(|(p, t)| ARData::Typed { code: 15, fields: vec![Val::U16(p), Val::Name(t)] }),
         1 => Just(ARData::Unknown { code: 10, data: Bytes(vec![1, 2]) }),
         1 => Just(ARData::Unknown { code: 999, data: Bytes(vec![3]) }),
@@ -375,7 +379,7 @@ pub fn def() -> CheckDef {
     let _ = gen::pick(0, 1);
     CheckDef {
         id: "C13",
-        rule: "model-based: a set-based reference store (key = owner, class, rdata; kind authoritative / cached / ambiguous) and an independent matcher give, for every query, a lower bound (authoritative records whose owner equals a question name and that match its type and class: must be answered) and an upper bound (authoritative or ambiguous records whose owner equals or is a label-wise subdomain of a question name and match: may be answered); additional records must be registered A/AAAA records owned by the target of an SRV answer; id, response flag, unicast = OR of the questions' bits; no reply iff nothing may be answered. (1) bounded-exhaustive: every subset of <= 3 (4 thorough) records of a 12-record catalogue whose names collide under concatenation and byte-prefixing (foobar / bar.foo / foo.bar, _my.local / _mysrv.local, a.b.local / ba.local) x 288 single questions (12 names x 8 QTYPEs x 3 QCLASSes) and a sample of question pairs; (2) random histories of add-authoritative / add-cached / remove / clear over 1..3-label names from {a,b,ab,ba,_my,_mysrv,foo,bar,foobar,local} with A, AAAA, SRV, TXT, PTR, MB, MX, NULL, unknown RDATA, classes IN/CH, and 0..2 questions over 13 QTYPEs x {IN, CH, ANY} x unicast. Non-trivial = the store is non-empty and a question name is a byte-prefix (after concatenation) of a different, non-subdomain registered name",
+        rule: "model-based: a set-based reference store (key = owner, class, rdata; kind authoritative / cached / ambiguous) and an independent matcher give, for every query, a lower bound (authoritative records whose owner equals a question name and that match its type and class: must be answered) and an upper bound (authoritative or ambiguous records whose owner equals or is a label-wise subdomain of a question name and match: may be answered); additional records must be registered A/AAAA records owned by the target of an SRV answer; id, response flag, unicast = OR of the questions' bits; no reply iff nothing may be answered. (1) bounded-exhaustive: every subset of <= 3 (4 thorough) records of a 14-record catalogue whose names collide under concatenation and byte-prefixing (foobar / bar.foo / foo.bar, _my.local / _mysrv.local, a.b.local / ba.local) x 360 single questions (12 names x 10 QTYPEs x 3 QCLASSes) and a sample of question pairs; (2) random histories of add-authoritative / add-cached / remove / clear over 1..3-label names from {a,b,ab,ba,_my,_mysrv,foo,bar,foobar,local} with A, AAAA, SRV, TXT, PTR, MB, MG, MR, MX, NULL, unknown RDATA, classes IN/CH, and 0..2 questions over 13 QTYPEs x {IN, CH, ANY} x unicast. Non-trivial = the store is non-empty and a question name is a byte-prefix (after concatenation) of a different, non-subdomain registered name",
         assumptions: vec![
             "lowercase names only (case-sensitivity of name equality is not part of the statement)",
             "MAILA / AXFR / IXFR: the statement is silent; such questions never require an answer and admit any type",
